@@ -135,7 +135,7 @@ def mutate(text, ch, nops):
                 j = k[ch.integer(0, len(k) - 1)]
                 p = segs[j].split(ele)
                 if len(p) > 1:
-                    p[1] = ch.choice(['X', '', '-1', '1.5', '99999999999999999999', ' '])
+                    p[1] = ch.choice(['X', '', '-1', '1.5', '99999999999999999999', ' ', '9' * 4400, '-' + '1' * 5000])
                     segs[j] = ele.join(p)
         elif op == 'empty-segment':
             segs.insert(i, '')
@@ -194,7 +194,8 @@ def mutate(text, ch, nops):
             k = [j for j, s in enumerate(segs) if s.startswith('HL')]
             if k:
                 j = k[ch.integer(0, len(k) - 1)]
-                segs[j] = ch.choice(['HL', 'HL' + ele, 'HL' + ele + 'X', 'HL%s1%sX%s20%s1' .replace('%s', ele), 'HL%s%s%s' .replace('%s', ele)])
+                segs[j] = ch.choice(['HL', 'HL' + ele, 'HL' + ele + 'X', 'HL%s1%sX%s20%s1' .replace('%s', ele), 'HL%s%s%s' .replace('%s', ele),
+                                     ele.join(['HL', '7' * 4500, '1', '20', '1']), ele.join(['HL', '2', '3' * 4400, '20', '1'])])
         elif op == 'garble-element':
             p = segs[i].split(ele)
             if len(p) > 1:
